@@ -143,3 +143,12 @@ package internal
 //@   requires R1: err != nil
 //@   ensures N1: resp != nil && fresh(resp) && len(resp.Hrefs) == 1 && resp.Hrefs[0].Path == path
 //@   ensures N2: resp.Status != nil && resp.Status.Code == errStatus(err) && len(resp.PropStats) == 0
+
+//@ -- PROPFIND answers (C11 decides the per-property accounting; here only what C01/C03/C12 need, assumed until then)
+//@ func internal.NewPropFindResponse(path, propfind, props) (resp, err)
+//@   trusted C11
+//@   requires R1: propfind != nil
+//@   allocates
+//@   ensures N1: err == nil ==> resp != nil && fresh(resp) && len(resp.Hrefs) == 1 && resp.Hrefs[0].Path == path && resp.Status == nil
+//@   ensures N2: err == nil <==> propfind.PropName != nil || propfind.AllProp != nil || propfind.Prop != nil
+//@   ensures N3: err != nil ==> resp == nil && httpCode(err) == 400 && !hostPath(err)
